@@ -11,6 +11,7 @@ import (
 	"sort"
 	"strings"
 	"sync"
+	"sync/atomic"
 
 	"reduction.dev/reduction/storage/locations"
 )
@@ -99,7 +100,6 @@ type waiter struct {
 	kind, path string
 	released   bool
 }
-
 
 func (l *Loc) gate(kind, path string) {
 	l.Started[kind]++
@@ -258,3 +258,68 @@ func (l *Loc) Files() []string {
 func (l *Loc) String() string { return fmt.Sprintf("Loc(%s, %d files)", l.Root, len(l.files)) }
 
 var _ locations.StorageLocation = (*Loc)(nil)
+
+// Client is the storage as one process sees it. After Kill the process is dead:
+// an operation of it that is still held at the gate, or that it issues later
+// (its goroutines cannot be stopped), never reaches the storage.
+type Client struct {
+	*Loc
+	dead atomic.Bool
+}
+
+func (l *Loc) Client() *Client { return &Client{Loc: l} }
+func (c *Client) Kill()        { c.dead.Store(true) }
+
+var errDead = fmt.Errorf("process is dead")
+
+func (c *Client) Write(path string, data io.Reader) (string, error) {
+	b, err := io.ReadAll(data)
+	if err != nil {
+		return "", err
+	}
+	l := c.Loc
+	p := l.full(path)
+	l.mu.Lock()
+	defer l.mu.Unlock()
+	if c.dead.Load() {
+		return "", errDead
+	}
+	l.gate("write", p)
+	if c.dead.Load() {
+		return "", errDead
+	}
+	l.files[p] = b
+	l.journal = append(l.journal, LocOp{Kind: "write", Path: p, Data: b})
+	l.cond.Broadcast()
+	return p, nil
+}
+
+func (c *Client) Remove(paths ...string) error {
+	l := c.Loc
+	l.mu.Lock()
+	defer l.mu.Unlock()
+	if c.dead.Load() {
+		return errDead
+	}
+	l.gate("remove", strings.Join(paths, ","))
+	if c.dead.Load() {
+		return errDead
+	}
+	var full []string
+	for _, p := range paths {
+		full = append(full, l.full(p))
+	}
+	for _, p := range full {
+		delete(l.files, p)
+		l.journal = append(l.journal, LocOp{Kind: "remove", Path: p, Paths: full})
+	}
+	l.cond.Broadcast()
+	return nil
+}
+
+func (c *Client) Copy(src, dst string) error {
+	if c.dead.Load() {
+		return errDead
+	}
+	return c.Loc.Copy(src, dst)
+}
